@@ -34,7 +34,7 @@ func TestC11(t *testing.T) {
 		bud := model.NewBudget(gen.Quantum)
 		s := c.new()
 		var entries []wEntry
-		mode := rapid.SampledFrom([]string{"single-light", "several-light", "reweighted-down", "reweighted-then-more", "heavy", "heavy", "mixed"}).Draw(t, "mode")
+		mode := rapid.SampledFrom([]string{"single-light", "several-light", "reweighted-down", "reweighted-then-more", "reweighted-large-buffer", "heavy", "heavy", "mixed"}).Draw(t, "mode")
 		cl.logf("C11 %s mode=%s", c, mode)
 		cl.label("mode:" + mode)
 		cl.label("mapping:" + c.spec.Kind)
@@ -65,6 +65,55 @@ func TestC11(t *testing.T) {
 			}
 			k := rapid.IntRange(1, 8).Draw(t, "shift")
 			f := math.Ldexp(1, -k)
+			cl.logf("Reweight(%v)", f)
+			if err := s.Reweight(f); err != nil {
+				t.Fatalf("C11: Reweight(%v): %v", f, err)
+			}
+			for i := range entries {
+				entries[i].w *= f
+			}
+			bud.P += k
+			cl.label("reached-by-reweight")
+		case "reweighted-large-buffer":
+			// some weighted entries, then many unit adds (a run concentrated on one page, possibly after a thinly spread
+			// run), then a reweight: in the paginated store the unit entries are all still buffered at that moment
+			for i := 0; i < rapid.IntRange(1, 4).Draw(t, "nweighted"); i++ {
+				v, _, _ := d.value(t, prof)
+				w := gen.LightWeight().Draw(t, "w")
+				total += w
+				add(v, w)
+			}
+			centre := d.lo + (d.hi-d.lo)/2
+			sign := 1.0
+			if prof.neg && (!prof.pos || rapid.Bool().Draw(t, "lbneg")) {
+				sign = -1
+			}
+			unitAt := func(i int) {
+				if i <= d.minIdx {
+					i = d.minIdx + 1
+				}
+				if i >= d.maxIdx {
+					i = d.maxIdx - 1
+				}
+				total++
+				add(sign*d.clamp(c.m.Value(i)), 1)
+			}
+			if rapid.Bool().Draw(t, "thinfirst") {
+				for k := 0; k < rapid.IntRange(65, 80).Draw(t, "nthin"); k++ {
+					unitAt(centre + 64 + 33*k)
+				}
+			}
+			nd := rapid.IntRange(32, 64).Draw(t, "ndense")
+			start := centre - centre%32 - 64
+			for k := 0; k < nd; k++ {
+				unitAt(start + rapid.IntRange(0, 31).Draw(t, "line"))
+			}
+			k := rapid.IntRange(1, 8).Draw(t, "shift")
+			f := math.Ldexp(1, -k)
+			if rapid.Bool().Draw(t, "up") {
+				f = float64(rapid.SampledFrom([]int{2, 3, 4}).Draw(t, "upf"))
+				k = 0
+			}
 			cl.logf("Reweight(%v)", f)
 			if err := s.Reweight(f); err != nil {
 				t.Fatalf("C11: Reweight(%v): %v", f, err)
